@@ -213,8 +213,6 @@ SET_TRIAGE.update(
             "every element is checked and any hit raises: only the choice of which error is reported first depends on order",
         ("src/exo/rewrite/LoopIR_scheduling.py", "DoUnrollBuffer", "for itr in used_allocs"):
             "set of small int literals: int hashing does not depend on the hash seed or on addresses",
-        ("src/exo/rewrite/LoopIR_unification.py", "Unification.__init__", "for x in FV_set"):
-            "fixes the order of unknowns handed to the solver; the solution is unique when the system is determined (z3's choice otherwise is outside the source: see DESIGN C18 'not decided')",
     }
 )
 
